@@ -624,7 +624,7 @@ def check_loop_closure(E, f, lam, op):
         return [(pub, chk, toks, locks, known, obs, bvals)]
 
     def bind_ret(st, call_id, rv):
-        return st[:6] + (frozenset(set(st[6]) | {(call_id, rv)}),)
+        return st[:6] + (frozenset({p_ for p_ in st[6] if p_[0] != call_id} | {(call_id, rv)}),)
 
     res, _outs = E.inl.explore(op, [(0, 0, frozenset(), frozenset(), frozenset(), frozenset(), frozenset())], transfer, refine,
                                C03Hooks(E, found, R1, bind_ret, toks_idx=2))
